@@ -74,9 +74,9 @@ func DateBounds(s Stored) (lo, hi time.Time, note string) {
 func AgeValueBounds(s Stored) Bounds {
 	vs := s.SentHeader.Values("Age")
 	if len(vs) == 0 {
-		if s.Is304 && s.PriorAgeAny {
-			return Bounds{0, Forever, "age:304-without-age"}
-		}
+		// (a 304 without Age: the freshened response's age restarts with the
+		// 304's own request and response times - an Age that arrived with an
+		// earlier message belongs to the old times)
 		return Bounds{0, 0, "age:none"}
 	}
 	b := Bounds{Low: Forever, High: 0, Note: "age:origin"}
